@@ -21,7 +21,8 @@ namespace GscribModel.BuilderTie
 
 /-- the builder object a model value stands for (nothing written yet) -/
 def absB (b : B) : BSt :=
-  { state := absG b, _distance_mode := bif b.rel then .RELATIVE else .ABSOLUTE, out := [] }
+  { state := absG b, _distance_mode := bif b.rel then .RELATIVE else .ABSOLUTE, _current_axes := b.axes, _current_params := b.params,
+    out := [] }
 
 def partCodes : Part → List String
   | .instr c m _ => [(tableLookup c m).getD "?"]
@@ -283,6 +284,53 @@ theorem BuilderTie_query (b : B) (t : Bool) :
     AgreesB (step b (.query t)) b (GCodeBuilder.query (absB b) (.val (bif t then .TEMPERATURE else .POSITION))) := by
   simp only [GCodeBuilder.query, absB]
   cases t <;> builder_simp [QueryMode.memberName]
+
+/-- **`_track_move_params`** (the F and S words of every move and probe): *both* are validated before *either* is
+    assigned, so a move with a good F and a bad S leaves the feed rate alone. -/
+theorem BuilderTie_track (b : B) (ps : List (String × Rat))
+    (hF : ∀ f, lookupQ ps "F" = some f → Val.isDouble (.fin f)) (hS : ∀ s, lookupQ ps "S" = some s → Val.isDouble (.fin s)) :
+    GCodeBuilder._track_move_params (absB b) ps =
+      if b.okTrack ps then (absB (b.track ps), none) else (absB b, some .valueError) := by
+  cases hf : lookupQ ps "F" with
+  | none =>
+    cases hs : lookupQ ps "S" with
+    | none => simp [GCodeBuilder._track_move_params, B.okTrack, B.track, absB, hf, hs]
+    | some s =>
+      have h2 := StateTie_validate_power b (.fin s) (hS s hs)
+      simp only [Val.fin?] at h2
+      by_cases hp : b.okPower s <;>
+        simp [GCodeBuilder._track_move_params, B.okTrack, B.track, absB, GState._set_tool_power, hf, hs, h2, hp] <;> rfl
+  | some f =>
+    have h1 := StateTie_validate_feed b (.fin f) (hF f hf)
+    simp only [Val.fin?] at h1
+    cases hs : lookupQ ps "S" with
+    | none =>
+      by_cases hp : b.okFeed f <;>
+        simp [GCodeBuilder._track_move_params, B.okTrack, B.track, absB, GState._set_feed_rate, hf, hs, h1, hp] <;> rfl
+    | some s =>
+      have h2 := StateTie_validate_power b (.fin s) (hS s hs)
+      simp only [Val.fin?] at h2
+      by_cases hq : b.okFeed f
+      · by_cases hp : b.okPower s
+        · -- both pass: the second validation of the power sees the state after the feed rate was assigned
+          have h3 := StateTie_validate_power { b with feed := f } (.fin s) (hS s hs)
+          have e3 : ({ b with feed := f } : B).okPower s = b.okPower s := rfl
+          simp only [Val.fin?, e3, hp, if_true] at h3
+          have ea : ({ absG b with _current_feed_rate := Val.fin f } : GState) = absG { b with feed := f } := rfl
+          simp [GCodeBuilder._track_move_params, B.okTrack, B.track, absB, GState._set_feed_rate, GState._set_tool_power,
+            hf, hs, h1, h2, hq, hp, ea, h3]
+          rfl
+        · simp [GCodeBuilder._track_move_params, B.okTrack, B.track, absB, GState._set_feed_rate, GState._set_tool_power,
+            hf, hs, h1, h2, hq, hp]
+      · simp [GCodeBuilder._track_move_params, B.okTrack, B.track, absB, GState._set_feed_rate, GState._set_tool_power, hf, hs, h1, hq]
+
+/-- **`_update_axes`** (behind every motion and `G92`): the axes bounds are checked by the state *before* the core's own
+    position and parameters are touched, and the state then aliases the core's parameter dictionary. -/
+theorem BuilderTie_update_axes (b : B) (target req : Pt) (ps : List (String × Rat)) :
+    GCodeBuilder._update_axes (absB b) target (toParams req ps) =
+      if b.bounds.okAxes target then (absB (b.commitAxes target req ps), none) else (absB b, some .valueError) := by
+  simp only [GCodeBuilder._update_axes, absB, StateTie_set_axes, coreUpdateAxes, GState._set_params, B.commitAxes]
+  by_cases h : b.bounds.okAxes target <;> simp [h, absG]
 
 /-! Non-vacuity: a rejected `tool_on` with the spindle running, and an accepted one. -/
 example : (GCodeBuilder.tool_on (absB { toolActive := true, spin := .cw }) (.val .COUNTER) (.fin 100)).2 = some .toolState := by decide +kernel
